@@ -40,6 +40,9 @@ type Pair struct {
 	Locals    []Local
 	Actions   []string // label operators of the translation that take (self)
 	CheckInit bool     // the first state of every trace must satisfy the spec's Init
+	// Extra renders further variables (named in ExtraVars) that do not live in the store or in a context.
+	Extra     func() State
+	ExtraVars []string
 }
 
 // DefaultInit: a global holding this string stands for PlusCal's defaultInitValue.
@@ -114,11 +117,17 @@ func (p *Pair) Snapshot() State {
 		}
 		s[l.TLA] = fnText(ks, vs)
 	}
+	if p.Extra != nil {
+		for k, v := range p.Extra() {
+			s[k] = v
+		}
+	}
 	return s
 }
 
 func (p *Pair) vars() []string {
 	vs := append([]string{}, p.Globals...)
+	vs = append(vs, p.ExtraVars...)
 	vs = append(vs, "pc")
 	for _, l := range p.Locals {
 		vs = append(vs, l.TLA)
@@ -141,13 +150,28 @@ func (p *Pair) Emit(traces []Trace) (mod, cfg string) {
 	var b strings.Builder
 	name := p.Module + "_trace"
 	fmt.Fprintf(&b, "---- MODULE %s ----\nEXTENDS %s\nVARIABLES tno, tstep\n\n", name, p.Module)
+	// every state is a constant definition; a step's state is written as its predecessor EXCEPT what changed
+	for ti, t := range traces {
+		fmt.Fprintf(&b, "T%d_0 == %s\n", ti+1, stateRec(vars, t.Init, "-", "0"))
+		prev := t.Init
+		for si, st := range t.Steps {
+			ch := []string{fmt.Sprintf("!.lbl = %q", st.Lbl), "!.who = " + st.Who}
+			for _, v := range vars {
+				if st.Post[v] != prev[v] {
+					ch = append(ch, "!.v_"+v+" = "+st.Post[v])
+				}
+			}
+			fmt.Fprintf(&b, "T%d_%d == [T%d_%d EXCEPT %s]\n", ti+1, si+1, ti+1, si, strings.Join(ch, ", "))
+			prev = st.Post
+		}
+	}
 	b.WriteString("Traces == <<\n")
 	for ti, t := range traces {
-		b.WriteString("  <<\n    " + stateRec(vars, t.Init, "-", "0"))
-		for _, st := range t.Steps {
-			b.WriteString(",\n    " + stateRec(vars, st.Post, st.Lbl, st.Who))
+		names := make([]string, 0, len(t.Steps)+1)
+		for si := 0; si <= len(t.Steps); si++ {
+			names = append(names, fmt.Sprintf("T%d_%d", ti+1, si))
 		}
-		b.WriteString("\n  >>")
+		b.WriteString("  <<" + strings.Join(names, ", ") + ">>")
 		if ti+1 < len(traces) {
 			b.WriteString(",")
 		}
